@@ -1,6 +1,6 @@
 (* C06 -- generated unit files read back exactly as generated; values cannot forge lines. *)
 From QV Require Import Model.Base Model.Quote Model.Unquote Model.PortRange Model.Unit Model.Lex Model.Parser Spec.Layout
-  Model.Path Model.Names Model.Convert Model.Process Proofs.C01 Proofs.C03 Proofs.C06 Proofs.C11 Proofs.C06shape Proofs.C06full.
+  Model.Path Model.Names Model.Convert Model.Process Model.ProcessD Proofs.C01 Proofs.C03 Proofs.C06 Proofs.C11 Proofs.C06shape Proofs.C06full Proofs.C06trees.
 
 (* a unit whose section names are distinct, non-empty and free of ']' and newline, whose keys are non-empty key
    characters and whose raw values are validated, newline-free, without leading blank or trailing white space,
@@ -105,3 +105,10 @@ WantedBy=default.target
   | _ => False
   end.
 Proof. vm_compute. repeat split; reflexivity. Qed.
+
+(* ---- the same for the run over unit files WITH their drop-ins (Model/ProcessD.v; either order of deriving the names) ---- *)
+Theorem C06_every_generated_service_reads_back_with_dropins : forall podman exists_path kill_fixed mount_nl names_after (files : list (str * str * list str)) p svc sp,
+  (forall q t ds, In (q, t, ds) files -> ~ In 0%N q) ->
+  In (p, ROk svc sp) (snd (process_trees podman exists_path kill_fixed mount_nl names_after files)) ->
+  EdgeFree svc -> parse_unit (to_string svc) = Some svc.
+Proof. intros podman ep kf mn na files p svc sp Hf. exact (trees_services_read_back_exactly podman ep kf mn na files Hf p svc sp). Qed.
